@@ -19,6 +19,7 @@ import (
 	"encoding/csv"
 	"fmt"
 	"io"
+	"sort"
 	"time"
 
 	"github.com/shopspring/decimal"
@@ -208,13 +209,26 @@ func (p *parser) parseBooking() error {
 }
 
 func (p *parser) addBalances() {
-	for k, bal := range p.balance {
+	// add the assertions in a fixed order (date, commodity name), not in map order:
+	// the order in which the assertions of a day are added is the order in which
+	// they are printed.
+	keys := make([]amounts.Key, 0, len(p.balance))
+	for k := range p.balance {
+		keys = append(keys, k)
+	}
+	sort.Slice(keys, func(i, j int) bool {
+		if !keys[i].Date.Equal(keys[j].Date) {
+			return keys[i].Date.Before(keys[j].Date)
+		}
+		return keys[i].Commodity.Name() < keys[j].Commodity.Name()
+	})
+	for _, k := range keys {
 		p.builder.Add(&model.Assertion{
 			Date: k.Date,
 			Balances: []model.Balance{
 				{
 					Commodity: k.Commodity,
-					Quantity:  bal,
+					Quantity:  p.balance[k],
 					Account:   p.account,
 				},
 			},
